@@ -1,7 +1,7 @@
 //! C01 stack meter: how many bytes of native stack each phase of loading / rendering a template uses.
 //!
-//! Request (JSON line): {"template": src, "ctx": json, "stack_kib": n (default 262144 = 256 MiB)}
-//! Response: {"parse": bytes, "parse_ok": bool, "compile": bytes (code generation alone), "drop_ast": bytes, "load": bytes, "load_ok": bool,
+//! Request (JSON line): {"template": src, "ctx": json, "stack_kib": n (default 262144 = 256 MiB), "height_only": bool}
+//! Response: {"ast_height": nodes on the longest path of the AST, "parse": bytes, "parse_ok": bool, "compile": bytes (code generation alone), "drop_ast": bytes, "load": bytes, "load_ok": bool,
 //!            "undeclared": bytes, "render": bytes, "render_ok": bool, "drop_env": bytes}
 //! Method: the request runs on a fresh thread with a big stack; before each phase the unused part of
 //! the stack below the current frame is painted with a pattern, afterwards the lowest overwritten
@@ -35,15 +35,56 @@ fn metered<R>(stack: usize, f: impl FnOnce() -> R) -> (R, usize) {
     (r, if p >= hi { GAP } else { top - p })
 }
 
+/// Nodes on the longest root-to-leaf path of the AST (statement and expression nodes; the
+/// serialized form of a node is an object with a string under "stmt" or "expr").  The
+/// serialization recurses (big stack), the walk over the result does not.
+fn ast_height(ast: &minijinja::machinery::ast::Stmt<'_>) -> usize {
+    let v = match serde_json::to_value(ast) {
+        Ok(v) => v,
+        Err(_) => return 0,
+    };
+    let mut best = 0;
+    let mut todo: Vec<(&J, usize)> = vec![(&v, 0)];
+    while let Some((v, h)) = todo.pop() {
+        match v {
+            J::Object(m) => {
+                let is_node = m.get("expr").map_or(false, |x| x.is_string()) || m.get("stmt").map_or(false, |x| x.is_string());
+                let h = h + is_node as usize;
+                best = best.max(h);
+                for (_, c) in m.iter() {
+                    todo.push((c, h));
+                }
+            }
+            J::Array(a) => {
+                for c in a {
+                    todo.push((c, h));
+                }
+            }
+            _ => {}
+        }
+    }
+    // dropping the deep JSON value recurses as well: we are on the big stack
+    best
+}
+
 fn run(req: &J, stack: usize) -> J {
     let src = req.get("template").and_then(|x| x.as_str()).unwrap_or("").to_string();
     let ctx = Value::from(minijinja::value::Serde(req.get("ctx").cloned().unwrap_or(J::Null)));
     let mut out = serde_json::Map::new();
+    if req.get("height_only").and_then(|x| x.as_bool()).unwrap_or(false) {
+        let ast = minijinja::machinery::parse(&src, "main", Default::default(), Default::default());
+        out.insert("parse_ok".into(), json!(ast.is_ok()));
+        if let Ok(ref ast) = ast {
+            out.insert("ast_height".into(), json!(ast_height(ast)));
+        }
+        return J::Object(out);
+    }
     {
         let (ast, used) = metered(stack, || minijinja::machinery::parse(&src, "main", Default::default(), Default::default()));
         out.insert("parse".into(), json!(used));
         out.insert("parse_ok".into(), json!(ast.is_ok()));
         if let Ok(ref ast) = ast {
+            out.insert("ast_height".into(), json!(ast_height(ast)));
             let ((), used) = metered(stack, || {
                 let mut g = minijinja::machinery::CodeGenerator::new("main", &src);
                 g.compile_stmt(ast);
